@@ -137,10 +137,15 @@ class _AdaByronAddrAttrs(NamedTuple):
             ValueError: If the dictionary is not valid
         """
         if (len(attrs_dict) > 2
-                or (len(attrs_dict) != 0 and 1 not in attrs_dict and 2 not in attrs_dict)):
+                or (len(attrs_dict) != 0 and 1 not in attrs_dict and 2 not in attrs_dict)
+                or not all(isinstance(attr_val, bytes) for attr_val in attrs_dict.values())):
+            raise ValueError("Invalid address attributes")
+        hd_path_enc_bytes = cbor2.loads(attrs_dict[1]) if 1 in attrs_dict else None
+        # The encrypted HD path shall be a byte string
+        if hd_path_enc_bytes is not None and not isinstance(hd_path_enc_bytes, bytes):
             raise ValueError("Invalid address attributes")
         return cls(
-            cbor2.loads(attrs_dict[1]) if 1 in attrs_dict else None,    # type: ignore [arg-type]
+            hd_path_enc_bytes,
             cbor2.loads(attrs_dict[2]) if 2 in attrs_dict else None     # type: ignore [arg-type]
         )
 
@@ -299,6 +304,7 @@ class _AdaByronAddr(NamedTuple):
         if (not isinstance(addr_bytes, (list, tuple))
                 or len(addr_bytes) != 2
                 or not isinstance(addr_bytes[0], cbor2.CBORTag)
+                or not isinstance(addr_bytes[0].value, bytes)
                 or not isinstance(addr_bytes[1], int)):
             raise ValueError("Invalid address encoding")
         # Get and check CBOR tag
